@@ -137,12 +137,33 @@ def run_audit(prop_id, lean_modules, theorems, timeout=900):
     return res, out
 
 
+# drivers that are also built as native executables (same Lean sources; 10-100x faster than --run)
+NATIVE = {"Conn": "conn_driver"}
+_native_ready = {}
+
+
+def native_exe(driver):
+    exe = NATIVE.get(driver)
+    if not exe or os.environ.get("VERIF_NO_NATIVE"):
+        return None
+    if exe not in _native_ready:
+        try:
+            p = subprocess.run(["lake", "build", exe], cwd=LEAN_DIR, capture_output=True, text=True, timeout=1200)
+            path = os.path.join(LEAN_DIR, ".lake", "build", "bin", exe)
+            _native_ready[exe] = path if (p.returncode == 0 and os.path.exists(path)) else None
+        except subprocess.TimeoutExpired:
+            _native_ready[exe] = None
+    return _native_ready[exe]
+
+
 def run_lean_driver(driver, lines, timeout=600):
-    """pipe op lines to `lake env lean --run Driver/<driver>.lean`, return output lines"""
+    """pipe op lines to the driver (native build if available, else `lake env lean --run Driver/<driver>.lean`)"""
     path = os.path.join("Driver", driver + ".lean")
     data = "\n".join(lines) + "\n"
+    exe = native_exe(driver)
+    cmd = [exe] if exe else ["lake", "env", "lean", "--run", path]
     try:
-        p = subprocess.run(["lake", "env", "lean", "--run", path], cwd=LEAN_DIR, input=data,
+        p = subprocess.run(cmd, cwd=LEAN_DIR, input=data,
                            capture_output=True, text=True, timeout=timeout)
     except subprocess.TimeoutExpired:
         raise LeanUnavailable("driver %s timed out" % driver)
